@@ -834,18 +834,31 @@ fn plan_wit(fix: &Fix, plan: &Result<miniscript::plan::Plan<Pk>, Descriptor<Pk>>
 pub fn build_shape<Ctx: CtxInfo>(fix: &Fix, t: &T, pal: Palette, with_rows: bool) -> Result<GShape, String> {
     let mut inst = Inst::new(fix, pal);
     let ms: Miniscript<Pk, Ctx> = inst.build(t).ok_or("does not type-check")?;
-    let ctx = Ctx::ID;
-    let script = ms.encode();
-    let ops = decode_script(fix, ctx, &script, &inst.hashkinds)?;
     let abs: Vec<u32> = pal.abs[..inst.na].to_vec();
     let rel: Vec<u32> = pal.rel[..inst.no].to_vec();
-    let nkeys = inst.nk;
-    let nh = inst.nh;
+    let mut g = shape_from_ms::<Ctx>(fix, &ms, inst.nk, &inst.hashkinds, abs, rel, pal, with_rows)?;
+    g.t = t.clone();
+    g.nodes = t.nodes();
+    Ok(g)
+}
+
+/// Artefacts of an arbitrary miniscript over the fixture keys / hashes (key ids < nkeys,
+/// hash j of kind hashkinds[j], the given lock values).
+pub fn shape_from_ms<Ctx: CtxInfo>(fix: &Fix, ms: &Miniscript<Pk, Ctx>, nkeys: usize, hashkinds: &[u8], abs: Vec<u32>, rel: Vec<u32>, pal: Palette, with_rows: bool) -> Result<GShape, String> {
+    struct I<'x> {
+        hashkinds: &'x [u8],
+    }
+    let inst = I { hashkinds };
+    let ms = ms.clone();
+    let ctx = Ctx::ID;
+    let script = ms.encode();
+    let ops = decode_script(fix, ctx, &script, inst.hashkinds)?;
+    let nh = hashkinds.len();
     let sane = ms.validate(&Ctx::sane_params()).is_ok();
     let mut policy = vec![];
     let liftable = match ms.lift() {
         Ok(p) => {
-            policy_array(fix, &p, &inst.hashkinds, &mut policy)?;
+            policy_array(fix, &p, inst.hashkinds, &mut policy)?;
             true
         }
         Err(_) => false,
@@ -974,13 +987,13 @@ pub fn build_shape<Ctx: CtxInfo>(fix: &Fix, t: &T, pal: Palette, with_rows: bool
     ];
     Ok(GShape {
         name: format!("{}", ms),
-        t: t.clone(),
+        t: T::F,
         ctx,
         pal,
         script_hex: format!("{:x}", script),
         ops,
         nkeys,
-        hashkinds: inst.hashkinds.clone(),
+        hashkinds: inst.hashkinds.to_vec(),
         abs,
         rel,
         ty: spec::of_type(ms.ty),
@@ -993,7 +1006,7 @@ pub fn build_shape<Ctx: CtxInfo>(fix: &Fix, t: &T, pal: Palette, with_rows: bool
         rows,
         has_desc: desc.is_some(),
         fig,
-        nodes: t.nodes(),
+        nodes: 0,
         base: spec::base_of(ms.ty.corr.base),
         family: 0,
         decode_notes,
